@@ -1,5 +1,3 @@
-import os
-
 from .common import H
 
 # GALOIS_DEBUG_SKIP: Debug (asan) builds do not print gDebug lines. VERIF_NO_HANG_MONITOR: a rank that spins while it waits for a
@@ -18,24 +16,15 @@ def c18(tier):
     for np in (4, 3, 2, 1):
         runs.append(H("c18_gluon", "dist", plan[np], "2" if np > 1 else "1,1", env=ENV, mpi=np, params=dict(salt=np),
                       timeout_per_case=15, timeout_base=150))
-    # ASan + UBSan build with assertions on (Gluon's own asserts, e.g. bit counts of sender and receiver). Automatic metadata mode
-    # only: with an enforced mode an empty message is deserialised into a never-allocated PODResizeableArray, whose assign() calls
-    # memcpy(nullptr, p, 0) (UBSan nonnull; libgalois/include/galois/PODResizeableArray.h:166 - reported, outside C18's statement).
+    # ASan + UBSan build with assertions on (Gluon's own asserts, e.g. bit counts of sender and receiver), all metadata modes
     for np, n in (((2, 12), (4, 12)) if tier == "quick" else ((2, 80), (3, 80), (4, 80))):
-        runs.append(H("c18_gluon", "dist-asan", n, "2", env=ENV, mpi=np, params=dict(salt=20 + np, mode=0),
+        runs.append(H("c18_gluon", "dist-asan", n, "2", env=ENV, mpi=np, params=dict(salt=20 + np),
                       timeout_per_case=40, timeout_base=240))
     if tier == "thorough":
         # same plan, other random inputs, sockets = 2 x 1 core (other thread-pool layout), no streaming policies
         for np in (2, 4):
             runs.append(H("c18_gluon", "dist", 150, "1,1", env=ENV, mpi=np, params=dict(salt=10 + np, streaming=0),
                           timeout_per_case=15, timeout_base=150))
-    if os.environ.get("VERIF_C18_ASYNC_ENFORCED") == "1":
-        # opt-in (see the report / known finding C18:sync:async-resends-without-updates:enforced-metadata-mode): the apps'
-        # asynchronous loop under an enforced bitset/offsets/gids metadata mode; on the unfixed tree every such phase is
-        # given up with that key (exit code 3 per case)
-        for np in (2, 3):
-            runs.append(H("c18_gluon", "dist", 12 if tier == "quick" else 60, "2", env=ENV, mpi=np,
-                          params={"salt": 30 + np, "asyncmodes": 1, "async": 1, "maxnodes": 1200}, timeout_per_case=30, timeout_base=150))
     return runs
 
 
@@ -70,7 +59,7 @@ SPEC = dict(
          "(a master changed by a mirror's contribution, or a mirror changed by another proxy's contribution); distinct by (scheme, "
          "direction, hosts, threads, mode, agnostic, per-round (field, write loc, read loc, bitset, async, continuation kind, density))",
     require={"rounds": 400, "mirrors_checked": 20000, "cross_host_updates": 10000, "multi_contribution_nodes": 2000,
-             "written_mirrors": 5000, "async_rounds": 20, "continuation_rounds": 80, "nobitset_rounds": 40,
+             "written_mirrors": 5000, "async_rounds": 20, "async_rounds_enforced_mode": 8, "continuation_rounds": 80, "nobitset_rounds": 40,
              "rounds_mode_auto": 100, "rounds_mode_bitset": 20, "rounds_mode_offsets": 20, "rounds_mode_gids": 20,
              "rounds_mode_dense": 20, "rank0_built_reduce_bitset": 20, "rank0_built_reduce_offsets": 20,
              "rank0_built_reduce_gids": 20, "rank0_built_reduce_dense": 20, "rank0_built_broadcast_bitset": 20,
@@ -93,15 +82,15 @@ SPEC = dict(
         "Continuation rounds keep (field, write loc, read loc, bitset, async) of the previous round, like an app's loop; proxies not "
         "readable at the read location may be stale there (never checked; min/max contributions are monotone, set replaces).",
         "Asynchronous execution is driven exactly like bfs_push.cpp (DGTerminator loop, writes in 1-3 waves) and only for what has "
-        "a schedule-independent final state: min/max/set fields, with bitset, automatic metadata mode. Not covered: async add (the "
-        "broadcast accumulates into mirrors; the apps' consumption makes the outcome app-specific), async with an enforced "
-        "metadata mode or without bitset (every call sends a message, the terminator is never quiescent).",
+        "a schedule-independent final state: min/max/set fields, with bitset, automatic or enforced bitset/offsets/gids metadata "
+        "mode. Not covered: async add (the broadcast accumulates into mirrors; the apps' consumption makes the outcome "
+        "app-specific), async with metadata enforced to onlyData or without bitset (every call sends every value by design, the "
+        "terminator is never quiescent).",
         "Per-mode observations: rounds_mode_* counts rounds under each enforced DataCommMode (get_data_mode returns the enforced mode "
-        "for every non-empty proxy list); rank0_auto_lists_* classifies rank 0's mirror lists by the mode the library's own "
+        "for every proxy list with at least one marked proxy); rank0_auto_lists_* classifies rank 0's mirror lists by the mode the library's own "
         "get_data_mode() selects for the marked share in automatic mode; rank0_built_* are Gluon's own MetadataMode statistics of "
         "rank 0 (MORE_DIST_STATS), read from the statistics file at the end of each harness process.",
-        "Inputs CuSP itself does not survive are avoided (C19's subject): fewer nodes than hosts; an edge-less graph with the "
-        "streaming policies (Fennel/Ginger/Sugar score is NaN, out-of-bounds host index).",
+        "Graphs with fewer nodes than hosts are not generated (C19's subject). Edge-less graphs are, for every policy.",
         "GluonEdgeSubstrate (edge-proxy sync over MiningGraph) is not exercised: no application calls its sync. "
         "GALOIS_SYNC_STRUCTURE_REDUCE_PAIR_WISE_ADD_ARRAY_SINGLE + GALOIS_SYNC_STRUCTURE_VECTOR_BITSET (element-wise vector sync) cannot "
         "be instantiated at all: SyncStructures.h:1896 does not parse ('unsigned uint8_t*') and GluonSubstrate.h:2378-2381 passes "
@@ -110,7 +99,8 @@ SPEC = dict(
         "Liveness is not decided by wall clock: a sync that never returns ends as 'inconclusive' through the driver watchdog. One "
         "logical liveness verdict exists: in an asynchronous phase a host may send at most 64 x hosts x (proxies + 64) messages (a "
         "call only sends when a bit is set; bits are set by the harness' writes and by strict improvements of a master); beyond "
-        "that the key C18:sync:async-resends-without-updates:* is recorded. The opt-in runs (VERIF_C18_ASYNC_ENFORCED=1, "
-        "--param asyncmodes=1) reach it on the unfixed tree under an enforced bitset/offsets/gids mode.",
+        "that the key C18:sync:async-resends-without-updates:{auto,enforced-metadata-mode} is recorded and, at 8 x the bound, the "
+        "phase is given up (exit code 3). Before fix 02a746b every asynchronous phase under an enforced bitset/offsets/gids mode "
+        "ended that way (header-only messages on every call).",
     ],
 )
